@@ -6,7 +6,7 @@ import Pog.Model.Fresh
                                               `try … except Exception: warnings.warn(…); continue`
     core/loader/responses/parser.py:37-44     `code must be a string`, `operation_id_for_promo must be provided`
     http_types.py                             `HTTPMethod.__members__`
-    emitters/endpoints_emitter.py:111-176     global id de-duplication (`Pog.dedupOpIds`) and tag grouping
+    emitters/endpoints_emitter.py:111-184     global id de-duplication (`Pog.dedupOpIds`) and tag grouping
     generator/client_generator.py:429-438     the direct path calls `EndpointsEmitter.emit` TWICE on the same
                                               IROperation objects (the 2nd time inside a log f-string)
 
@@ -195,10 +195,25 @@ def appendAt {α : Type} (g : List (Str × List α)) (k : Str) (x : α) : List (
   | [] => [(k, [x])]
   | (k', l) :: rest => if k' == k then (k', l ++ [x]) :: rest else (k', l) :: appendAt rest k x
 
-/-- endpoints_emitter.py:168-176: one entry per normalised tag key; each carries, in order, one item
-    per (operation, tag) incidence.  Items are `(operation, its method name)`. -/
+/-- The inner loop `for tag in tags:` for one item, with the per-operation set `keys_of_op`:
+    ```
+    key = normalize_tag_key(tag)
+    if key not in keys_of_op:
+        keys_of_op.add(key)
+        tag_key_to_ops.setdefault(key, []).append(op)
+    ``` -/
+def addOpTags {α : Type} (u : UInfo) (it : α) : List Str → List Str → List (Str × List α) → List (Str × List α)
+  | _, [], g => g
+  | keysOfOp, t :: ts, g =>
+    let k := normTagKey u t
+    if keysOfOp.contains k then addOpTags u it keysOfOp ts g
+    else addOpTags u it (k :: keysOfOp) ts (appendAt g k it)
+
+/-- endpoints_emitter.py:172-184: one entry per normalised tag key; each carries, in order, one item per operation that has
+    at least one tag with that key (an operation tagged with two spellings of one tag is appended once).
+    Items are `(operation, its method name)`. -/
 def groupByTag (u : UInfo) (items : List (IROp × Str)) : List (Str × List (IROp × Str)) :=
-  items.foldl (fun g it => (opTags it.1).foldl (fun g t => appendAt g (normTagKey u t) it) g) []
+  items.foldl (fun g it => addOpTags u it [] (opTags it.1) g) []
 
 /-- The clients: normalised tag key ↦ the method names defined in that client class, in order. -/
 def clients (u : UInfo) (direct : Bool) (ops : List IROp) : List (Str × List Str) :=
